@@ -374,9 +374,16 @@ def hostile_items(kind, rng, hosted):
             for _ in range(rng.choice([1, 1, 3])):
                 b[rng.randrange(len(b))] ^= 1 << rng.randrange(8)
             items.append(bytes(b))
-        elif c < 0.55:
+        elif c < 0.52:
             f = good(rand_request(rng))
             items.append(f["bytes"][:rng.randint(1, len(f["bytes"]) - 1)])
+        elif c < 0.58 and kind in ("rtu", "bin", "ascii"):
+            # a write request whose checksum field is damaged in a structured way (bytes exchanged, zeroed, all ones, complemented)
+            f = good(rng.choice([dm.pdu_w1(6, rng.choice([0, 3, 17]), rng.randint(1, 65535)), dm.pdu_w1(5, rng.choice([0, 3, 17]), 0xFF00),
+                                 dm.pdu_wn(16, 2, 2, 4, [rng.randrange(1, 256) for _ in range(4)])]))
+            alts = F.checksum_variants(kind, f["bytes"])
+            if alts:
+                items.append(rng.choice(alts))
         elif c < 0.8:
             # checksum-valid frame, hostile PDU
             fc = rng.choice([1, 3, 5, 6, 15, 16, 22, 23, 8, 20, 21, 24, 43, 7, 17])
